@@ -326,6 +326,48 @@ class Models(object):
         R('Vec::with_capacity', lambda ex, fr, c, a, st, pc: (empty_vec(), S.TRUE))
         R('Vec::clear', lambda ex, fr, c, a, st, pc: (self.wr(st, a[0], empty_vec()) or UNIT, S.TRUE))
 
+        def sl_contains(ex, fr, c, a, st, pc):
+            v = self._deep(st, a[0])
+            x = self._deep(st, a[1])
+            if not isinstance(v, VecV):
+                raise Unsupported('contains on %r' % (v,))
+            return S.Or([S.And(S.Ult(b64(i), v.length), veq(e, x)) for i, e in enumerate(v.cells) if e is not UNDEF]), S.TRUE
+        R('slice::contains|Vec::contains', sl_contains)
+
+        def vec_drain(ex, fr, c, a, st, pc):
+            v = rd(st, a[0])
+            self.wr(st, a[0], empty_vec())
+            return ('veciter', v, b64(0), 'val'), S.TRUE
+        R('Vec::drain', vec_drain)
+        R('<Drain as IntoIterator>::into_iter|<IntoIter as IntoIterator>::into_iter|<Iter as IntoIterator>::into_iter|'
+          '<Map as IntoIterator>::into_iter', lambda ex, fr, c, a, st, pc: (a[0], S.TRUE))
+        R('<Drain as Iterator>::next', self.iter_next)
+
+        def vec_first_last(which):
+            def f(ex, fr, c, a, st, pc):
+                v = self._deep(st, a[0])
+                has = S.Not(S.Eq(v.length, b64(0)))
+                idx = b64(0) if which == 'first' else S.Sub(v.length, b64(1))
+                e = select(v.cells, idx)
+                if e is UNDEF:
+                    return none(), S.TRUE
+                return option(has, RefV(ex.alloc(st, e, 'elem'), ())), S.TRUE
+            return f
+        R('slice::first|Vec::first', vec_first_last('first'))
+        R('slice::last|Vec::last', vec_first_last('last'))
+
+        def vec_extend(ex, fr, c, a, st, pc):
+            v = rd(st, a[0])
+            src = a[1]
+            if isinstance(src, tuple) and src and src[0] == 'veciter':
+                src = src[1]
+            if not isinstance(src, VecV) or not S.is_const(src.length) or not S.is_const(v.length):
+                raise Unsupported('Vec::extend with symbolic lengths')
+            k, m = S.cval(v.length), S.cval(src.length)
+            self.wr(st, a[0], VecV(v.cells[:k] + src.cells[:m], b64(k + m)))
+            return UNIT, S.TRUE
+        R('<Vec as Extend>::extend|Vec::append', vec_extend)
+
         def vec_pop(ex, fr, c, a, st, pc):
             v = rd(st, a[0])
             has = S.Not(S.Eq(v.length, b64(0)))
